@@ -172,6 +172,14 @@ pub fn name_variants() -> Vec<(String, Vec<u8>)> {
         ("name with Universal value starting with U+0000, UTF8 value ending in U+0000".into(), seq(&[set_of(&[atv(&[2, 5, 4, 10], T_UNIVERSALSTR, &[0, 0, 0, 0, 0, 0, 0, 0x41])]), set_of(&[atv(&[2, 5, 4, 3], T_UTF8, b"cd\0")])])),
         ("name with IA5 value ending in CR LF, Printable value ending in a blank".into(), seq(&[set_of(&[atv(&[2, 5, 4, 3], T_IA5, b"ab\r\n")]), set_of(&[atv(&[2, 5, 4, 10], T_PRINTABLE, b"Org ")])])),
         ("name with NumericString value".into(), seq(&[set_of(&[atv(&[2, 5, 4, 5], 18, b"12345")])])),
+        // the other universal character-string types (an importer holds none of them: refuse, or emit the very same bytes again)
+        ("name with VisibleString value".into(), seq(&[set_of(&[atv(&[2, 5, 4, 10], T_UTF8, b"o")]), set_of(&[atv(&[2, 5, 4, 3], 26, b"visible text")])])),
+        ("name with VisibleString value alone, under a custom type".into(), seq(&[set_of(&[atv(&[0, 9, 2342, 19200300, 100, 1, 25], 26, b"example")])])),
+        ("name with GeneralString value".into(), seq(&[set_of(&[atv(&[2, 5, 4, 3], 27, b"general text")])])),
+        ("name with GraphicString value".into(), seq(&[set_of(&[atv(&[2, 5, 4, 3], 25, b"graphic text")])])),
+        ("name with VideotexString value".into(), seq(&[set_of(&[atv(&[2, 5, 4, 11], 21, b"videotex")])])),
+        ("name with NumericString value under CN after O".into(), seq(&[set_of(&[atv(&[2, 5, 4, 10], T_UTF8, b"o")]), set_of(&[atv(&[2, 5, 4, 3], 18, b"12 345")])])),
+        ("name with ObjectDescriptor value".into(), seq(&[set_of(&[atv(&[2, 5, 4, 3], 7, b"descriptor")])])),
         ("name with invalid UTF8".into(), seq(&[set_of(&[atv(&[2, 5, 4, 3], T_UTF8, &[0xff, 0xfe])])])),
         ("name with BMP odd length".into(), seq(&[set_of(&[atv(&[2, 5, 4, 3], T_BMP, &[0, 65, 0])])])),
         ("name with BMP surrogate".into(), seq(&[set_of(&[atv(&[2, 5, 4, 3], T_BMP, &[0xd8, 0, 0xdc, 0])])])),
@@ -389,6 +397,12 @@ pub fn foreign_csrs(zoo: &[ZooKey]) -> Vec<(String, Vec<u8>, bool)> {
     v.push(("csr SAN: an absolute host name (trailing dot)".into(), sign(mk(&[dot_a]).cri()), false));
     v.push(("csr SAN: absolute and relative twins, single-label and root names".into(), sign(mk(&[dot_b]).cri()), false));
     v.push(("csr SAN: trailing dots and blanks in mail, URI and host names".into(), sign(mk(&[dot_c]).cri()), false));
+    // iPAddress alternative names of a length that is no address (an address with its mask, as in a name constraint, among
+    // them): nothing rcgen could carry over unchanged; an address-like prefix of the octets is not what was asked for
+    for len in [0usize, 1, 3, 5, 8, 12, 15, 17, 20, 31, 32, 33, 64] {
+        let e = RefExt::new(OID_SAN, false, ext_san(&[AbsGn::Dns(b"before.example".to_vec()), AbsGn::Ip((0..len as u8).map(|i| 10 + i).collect())]));
+        v.push((format!("csr SAN: iPAddress of {} octets", len), sign(mk(&[e]).cri()), false));
+    }
     // object identifiers that are not complete: the last subidentifier still has its continuation bit set. Such a
     // request names no attribute type / name form at all: nothing rcgen could carry over
     let cut_type = |oid_content: &[u8]| seq(&[set_of(&[seq(&[tlv(0x06, oid_content), string(T_UTF8, b"x")])])]);
